@@ -501,6 +501,10 @@ func (x *Exec) applyContract(st *State, fr *Frame, con *Contract, name string, s
 		x.oblige(st, "pre@"+shortCallee(name), label, pos, t, nil)
 		st.assume(t)
 	}
+	if con.CallsOnce != "" || con.Repeats != "" {
+		x.higherOrder(st, fr, con, name, sig, vars, env, pos, k)
+		return
+	}
 	pre := st.clone()
 	x.curCallee = name
 	x.havocModifies(st, env, con, name)
@@ -850,20 +854,30 @@ func (x *Exec) copyOp(st *State, fr *Frame, dst, src Val, pos string, k contK) {
 	n := st.define(x, "ncopy", x.sorts.Idx(), ite(x.idxLe(dst.Len, srcLen), dst.Len, srcLen))
 	for _, l := range x.sorts.leaves(et) {
 		name, hs, cur := x.memArr(st, et, l)
-		_, nw := x.heapHavoc(st, name, hs)
 		is := x.sorts.Idx()
+		inner := x.freshConst("copied", "(Array "+is+" "+l.sort+")")
 		q := fmt.Sprintf("j!%d", x.nfresh)
 		x.nfresh++
+		rd := func(arr, off, i string) string {
+			if x.mode == ModeInt {
+				return app(x.slcFun(l.sort), arr, off, i)
+			}
+			return sel(arr, x.idxAdd(off, i))
+		}
 		var srcElem string
 		if src.K == KSlice {
-			srcElem = sel(sel(cur, src.Ref), x.idxAdd(src.Off, x.idxSub(q, dst.Off)))
+			srcElem = rd(sel(cur, src.Ref), src.Off, q)
 		} else {
 			x.decls.Fun("gstr.at", []string{"Str", x.sorts.Idx()}, x.byteSort())
-			srcElem = app("gstr.at", src.S, x.idxSub(q, dst.Off))
+			srcElem = app("gstr.at", src.S, q)
 		}
-		st.assume(fmt.Sprintf("(forall ((r Int)) (=> (not (= r %s)) (= (select %s r) (select %s r))))", dst.Ref, nw, cur))
-		st.assume(fmt.Sprintf("(forall ((%s %s)) (= (select (select %s %s) %s) (ite (and %s %s) %s (select (select %s %s) %s))))",
-			q, is, nw, dst.Ref, q, x.idxLe(dst.Off, q), x.idxLt(q, x.idxAdd(dst.Off, n)), srcElem, cur, dst.Ref, q))
+		body := fmt.Sprintf("(= %s (ite (and %s %s) %s %s))", rd(inner, dst.Off, q), x.idxGe0(q), x.idxLt(q, n), srcElem, rd(sel(cur, dst.Ref), dst.Off, q))
+		if x.mode == ModeInt {
+			st.assume(fmt.Sprintf("(forall ((%s %s)) (! %s :pattern (%s)))", q, is, body, rd(inner, dst.Off, q)))
+		} else {
+			st.assume(fmt.Sprintf("(forall ((%s %s)) %s)", q, is, body))
+		}
+		x.heapSet(st, name, hs, sto(cur, dst.Ref, inner))
 	}
 	k(st, fr, []Val{{T: types.Typ[types.Int], K: KScalar, S: n}})
 }
@@ -1161,3 +1175,158 @@ func (x *Exec) intLitMode(n int64, w int) string {
 }
 
 var _ = sort.Strings
+
+// higherOrder gives meaning to assumed callees that call a closure argument: exactly once (callsonce) or any number of times (repeats).
+func (x *Exec) higherOrder(st *State, fr *Frame, con *Contract, name string, sig *types.Signature, vars map[string]Val, env *Env, pos string, k contK) {
+	pname := con.CallsOnce
+	if pname == "" {
+		pname = con.Repeats
+	}
+	fv, ok := vars[pname]
+	if !ok || fv.Clo == nil {
+		x.unsupported("%s: %s passes a function that is not a closure literal known at the call site", pos, name)
+	}
+	clo := fv.Clo
+	csig := clo.Fn.Signature
+	finishCall := func(st *State, fr *Frame, cres []Val) {
+		pre := st.clone()
+		x.curCallee = name
+		x.havocModifies(st, env, con, name)
+		x.curCallee = ""
+		res := x.freshResults(st, sig, "ret")
+		rv := x.resultVars(sig, res)
+		for i, r := range cres {
+			rv[fmt.Sprintf("$fnret%d", i)] = r
+		}
+		post := env.with(rv)
+		post.st = st
+		post.old = pre
+		for _, c := range con.Ensures {
+			t, err := x.trClause(post, c)
+			if err != nil {
+				x.unsupported("%v", err)
+			}
+			st.assume(t)
+		}
+		k(st, fr, res)
+	}
+	if con.CallsOnce != "" {
+		var args []Val
+		for i := 0; i < csig.Params().Len(); i++ {
+			args = append(args, x.freshVal(st, csig.Params().At(i).Type(), fmt.Sprintf("cbarg%d", i)))
+		}
+		x.callStatic(st, fr, clo.Fn, args, clo.Bindings, pos, finishCall)
+		return
+	}
+	// repeats: the closure runs any number of times; the caller supplies an invariant (callinv) through a hook on this call
+	var invs []Clause
+	for i := range x.con.Hooks {
+		h := &x.con.Hooks[i]
+		if h.When == "call" && hookMatches(h.Pattern, name) {
+			invs = append(invs, h.CallInv...)
+		}
+	}
+	check := func(st *State, fr *Frame, when string) {
+		e := x.baseEnv(st, fr).with(vars)
+		for i, c := range invs {
+			t, err := x.trClause(e, c)
+			if err != nil {
+				x.unsupported("%v", err)
+			}
+			label := c.Label
+			if label == "" {
+				label = fmt.Sprint(i + 1)
+			}
+			x.oblige(st, "callinv", label+"."+when, pos, t, c.Props)
+		}
+	}
+	assumeInv := func(st *State, fr *Frame) {
+		e := x.baseEnv(st, fr).with(vars)
+		for _, c := range invs {
+			t, err := x.trClause(e, c)
+			if err != nil {
+				x.unsupported("%v", err)
+			}
+			st.assume(t)
+		}
+	}
+	check(st, fr, "entry")
+	// discover what the closure writes (dry run), havoc it, assume the invariant: state after an arbitrary number of calls
+	ws := x.closureWriteSet(st, fr, clo, csig, pos)
+	x.inLoopHavoc = true
+	if ws.all {
+		x.havocAll(st)
+	} else {
+		for _, n := range sortedKeys(ws.names) {
+			x.heapHavoc(st, n, x.arrSorts[n])
+		}
+	}
+	x.inLoopHavoc = false
+	// the automatic function frame survives the havoc
+	if fr.parent == nil && !x.fnModAll && !ws.all {
+		for _, n := range sortedKeys(ws.names) {
+			st.assume(x.frameFormula(st, n))
+		}
+	}
+	assumeInv(st, fr)
+	// one more call preserves the invariant
+	st2, fr2 := st.clone(), fr.clone()
+	var args []Val
+	cbvars := map[string]Val{}
+	for i := 0; i < csig.Params().Len(); i++ {
+		a := x.freshVal(st2, csig.Params().At(i).Type(), fmt.Sprintf("cbarg%d", i))
+		args = append(args, a)
+		cbvars[fmt.Sprintf("$a%d", i)] = a
+	}
+	e2 := x.baseEnv(st2, fr2).with(vars).with(cbvars)
+	e2.pkgPath = con.PkgPath
+	for _, c := range con.RepeatReq {
+		t, err := x.trClause(e2, c)
+		if err != nil {
+			x.unsupported("%v", err)
+		}
+		st2.assume(t)
+	}
+	st2.pathDesc = append(st2.pathDesc, "closure-step")
+	x.callStatic(st2, fr2, clo.Fn, args, clo.Bindings, pos, func(st *State, fr *Frame, _ []Val) {
+		check(st, fr, "preserved")
+		if fr.parent == nil && !x.fnModAll {
+			for _, n := range sortedKeys(ws.names) {
+				f := x.frameFormula(st, n)
+				if f != "true" {
+					x.oblige(st, "frame", "closure."+shortArr(n), pos, f, nil)
+				}
+			}
+		}
+	})
+	st.pathDesc = append(st.pathDesc, "after-"+shortCallee(name))
+	finishCall(st, fr, nil)
+}
+
+func (x *Exec) closureWriteSet(st *State, fr *Frame, clo *Closure, csig *types.Signature, pos string) *writeSet {
+	saveFn, saveBody, saveAcc, saveAll := x.dryFrameFn, x.dryBody, x.dryAcc, x.dryAll
+	x.dry++
+	x.dryFrameFn, x.dryBody, x.dryAcc, x.dryAll = nil, nil, map[string]bool{}, false
+	st2, fr2 := st.clone(), fr.clone()
+	st2.written = map[string]bool{}
+	st2.writtenAll = false
+	var args []Val
+	for i := 0; i < csig.Params().Len(); i++ {
+		args = append(args, x.freshVal(st2, csig.Params().At(i).Type(), fmt.Sprintf("dryarg%d", i)))
+	}
+	func() {
+		defer func() { x.dry-- }()
+		x.callStatic(st2, fr2, clo.Fn, args, clo.Bindings, pos, func(st *State, fr *Frame, _ []Val) { x.dryStop(st) })
+	}()
+	ws := &writeSet{names: x.dryAcc, all: x.dryAll}
+	x.dryFrameFn, x.dryBody, x.dryAcc, x.dryAll = saveFn, saveBody, saveAcc, saveAll
+	if x.dry > 0 && x.dryAcc != nil {
+		for n := range ws.names {
+			x.dryAcc[n] = true
+		}
+		if ws.all {
+			x.dryAll = true
+		}
+	}
+	return ws
+}
